@@ -2,7 +2,7 @@
 Written from the RFC text, independent of the repository's decoders."""
 
 
-def prefixes(data: bytes, addpath: bool = False, labels: bool = False, rd: bool = False):
+def prefixes(data: bytes, addpath: bool = False, labels: bool = False, rd: bool = False, withdraw: bool = False):
     """RFC 4271 4.3 <length, prefix> list; RFC 7911 path id; RFC 8277 labels; RFC 4364 RD -> list of tuples"""
     out = []
     i = 0
@@ -31,7 +31,9 @@ def prefixes(data: bytes, addpath: bool = False, labels: bool = False, rd: bool 
                 body = body[3:]
                 bits -= 24
                 lab.append(l >> 4)
-                if l & 1 or l == 0x800000 or l == 0:
+                # RFC 8277 2.4: in a withdrawal the label field may be 0x800000 or 0x000000 (no stack follows);
+                # in an announcement only the bottom-of-stack bit ends the stack (label 0 is a real label)
+                if l & 1 or (withdraw and (l == 0x800000 or l == 0)):
                     break
         if rd:
             rdv = bytes(body[:8])
@@ -95,6 +97,6 @@ def decode_update(msg: bytes, addpath=lambda afi, safi: False):
             afi = int.from_bytes(val[0:2], 'big')
             safi = val[2]
             lab = safi in (4, 128)
-            entries = prefixes(val[3:], addpath(afi, safi), lab, safi == 128) if safi in (1, 2, 4, 128) else [(None, (), None, None, bytes(val[3:]))]
+            entries = prefixes(val[3:], addpath(afi, safi), lab, safi == 128, True) if safi in (1, 2, 4, 128) else [(None, (), None, None, bytes(val[3:]))]
             res['mp_unreach'].append((afi, safi, entries))
     return res
